@@ -741,6 +741,10 @@ class HSM2Dongle:
                 return (False, self.RESPONSE.SIGN.ERROR_UNEXPECTED)
 
             bytes_requested = response[1][self.OFF.DATA]
+        except OverflowError as e:
+            # E.g., a witness script that does not fit in the extra data
+            self.logger.error("Sign: BTC tx or extra data too big: %s", str(e))
+            return (False, self.RESPONSE.SIGN.ERROR_BTC_TX)
         except HSM2DongleErrorResult as e:
             self.logger.error("Sign returned: %s", hex(e.error_code))
             if e.error_code in [
